@@ -1107,8 +1107,8 @@ MUTANTS = [
      [(FM, "            ind = np.zeros(self.p.shape[1])",
        "            ind = np.zeros(self.nvertices)")], "C17-R1"),
     ("subdomains parsed from every cell set",
-     [(_IO, "                      if meshio_type in v and k.split(\":\")[0] "
-       "!= \"gmsh\"}", "                      if meshio_type in v}")],
+     [(_IO, "                      if meshio_type in v and not "
+       "k.startswith(\"gmsh:\")}", "                      if meshio_type in v}")],
      "C17-R1"),
     ("legacy names looked up by number only",
      [(_IO, "                    if (m.field_data[key][0] == tag\n"
@@ -1236,10 +1236,10 @@ TWINS = [
      "since unnamed groups create no tag: seed C17-6 on the repaired tree)",
      [(FIO, _G22, "    if len(boundaries) == 0 and 'gmsh:physical' in "
        "m.cell_data:")]),
-    ("gmsh namespace tested with startswith",
-     [(_IO, "                      if meshio_type in v and k.split(\":\")[0] "
-       "!= \"gmsh\"}", "                      if meshio_type in v and not "
-       "k.startswith(\"gmsh:\")}")]),
+    ("gmsh namespace tested by slicing the prefix",
+     [(_IO, "                      if meshio_type in v and not "
+       "k.startswith(\"gmsh:\")}", "                      if meshio_type in "
+       "v and k[:5] != \"gmsh:\"}")]),
     ("point-data indicator sized by the point table",
      [(FM, "            ind = np.zeros(self.p.shape[1])",
        "            ind = np.zeros(self.doflocs.shape[1])")]),
